@@ -1,12 +1,13 @@
 (* Model of compression negotiation: tonic/src/codec/compression.rs (EnabledCompressionEncodings,
    from_accept_encoding_header, from_encoding_header), the glue in tonic/src/server/grpc.rs
-   (unary / map_request_unary / map_response) and tonic/src/client/grpc.rs (prepare_request /
-   create_response), the per-response opt-out of tonic/src/response.rs, and the decoder's rule
+   (the four entry points unary / server_streaming / client_streaming / streaming with
+   map_request_unary / map_request_streaming / map_response) and tonic/src/client/grpc.rs (the four
+   call shapes, which all go through streaming: prepare_request / create_response), the per-response opt-out of tonic/src/response.rs, and the decoder's rule
    for the compressed-flag (tonic/src/codec/decode.rs, decode_chunk).
    The tables (encodings, their names, header names, token tables) come from
    Gen/CompressionTables.v, regenerated from the source on every run.  No proofs here. *)
 From Verif Require Import Lib.Bytes Lib.Obs Lib.Percent Lib.HeaderMap.
-From Verif Require Import Gen.StatusTables Gen.CompressionTables Model.Status.
+From Verif Require Import Gen.StatusTables Gen.CompressionTables Model.Frame Model.Status.
 From Coq Require Import String.
 Open Scope list_scope.
 Open Scope N_scope.
@@ -203,8 +204,8 @@ Definition decode_flag (stream_encoding : option encoding) (flag : N) : flag_res
          end
   else FlagErr (internal flag_invalid_prefix).
 
-(* a received first frame, abstractly: its flag byte and the set of codecs whose decompressor
-   accepts the payload (flate2 / zstd are outside the model) *)
+(* a received frame, abstractly: its flag byte and the set of codecs whose decompressor accepts
+   the payload (flate2 / zstd are outside the model) *)
 Definition inflates_with (ok : list encoding) (e : encoding) : bool := existsb (encoding_eqb e) ok.
 Definition decode_first (stream_encoding : option encoding) (flag : N) (inflatable : list encoding)
   : unit + status :=
@@ -215,9 +216,35 @@ Definition decode_first (stream_encoding : option encoding) (flag : N) (inflatab
       if inflates_with inflatable e then inl tt else inr (internal decompress_err_prefix)
   end.
 
+Record rframe := mkFrame { rf_flag : N; rf_inflates : list encoding }.
+(* reading a stream of frames to its end: the messages delivered before the first error (the
+   error is final), and that error if any *)
+Fixpoint decode_all (enc : option encoding) (fs : list rframe) : nat * (unit + status) :=
+  match fs with
+  | [] => (O, inl tt)
+  | f :: r =>
+      match decode_first enc (rf_flag f) (rf_inflates f) with
+      | inr st => (O, inr st)
+      | inl _ => let '(n, e) := decode_all enc r in (S n, e)
+      end
+  end.
+
 (* encoder: the flag byte written by finish_encoding *)
 Definition flag_of (compression : option encoding) : N :=
   match compression with Some _ => 1 | None => 0 end.
+
+(* a frame as sent: the coding it was produced with, and its bytes *)
+Record wframe := mkWire { wf_flag : N; wf_used : option encoding; wf_bytes : list N }.
+
+Section Codec.
+  (* flate2 / zstd compressors: external, an arbitrary function here *)
+  Variable cmp : encoding -> list N -> list N.
+  (* encode_item + finish_encoding *)
+  Definition encode_item (compression : option encoding) (msg : list N) : wframe :=
+    mkWire (flag_of compression) compression
+           (frame (flag_of compression)
+                  (match compression with Some e => cmp e msg | None => msg end)).
+End Codec.
 
 (* ------------------------------------------------------------------ server::Grpc *)
 Inductive outcome (A : Type) : Type := Done (a : A) | Panic.
@@ -228,6 +255,8 @@ Definition hdr_content_type : list N := Eval vm_compute in bytes_of_string "cont
 Definition grpc_content_type : list N := Eval vm_compute in bytes_of_string "application/grpc".
 Definition hdr_te : list N := Eval vm_compute in bytes_of_string "te".
 Definition te_trailers : list N := Eval vm_compute in bytes_of_string "trailers".
+Definition missing_request_msg : list N := Eval vm_compute in bytes_of_string "Missing request message.".
+Definition missing_response_msg : list N := Eval vm_compute in bytes_of_string "Missing response message.".
 
 Record server := mkServer { sv_accept : enabled; sv_send : enabled }.
 Definition server_new : server := mkServer en_default en_default.
@@ -245,21 +274,42 @@ Definition apply_compression_config (s : server) (acc snd : enabled) : server :=
 Definition config_of (l : list encoding) : enabled := fold_left enable l en_default.
 Definition server_of (acc snd : list encoding) : server := mkServer (config_of acc) (config_of snd).
 
+(* the four entry points of server::Grpc (and the four call shapes of client::Grpc) *)
+Inductive shape := Unary | ServerStreaming | ClientStreaming | Streaming.
+(* unary / server_streaming read the request through map_request_unary, the other two hand a
+   Streaming to the handler (map_request_streaming) *)
+Definition request_is_unary (s : shape) : bool :=
+  match s with Unary | ServerStreaming => true | _ => false end.
+(* unary / client_streaming answer with one message and honour the per-response opt-out *)
+Definition response_is_unary (s : shape) : bool :=
+  match s with Unary | ClientStreaming => true | _ => false end.
+
 (* SingleMessageCompressionOverride, set by Response::disable_compression *)
 Inductive override := Inherit | Disable.
+(* compression_override_from_response is consulted by unary and client_streaming only; the
+   other two pass SingleMessageCompressionOverride::default() *)
+Definition override_for (s : shape) (ov : override) : override :=
+  if response_is_unary s then ov else Inherit.
 
-(* what the unary handler returned: a response (its metadata, its extension) or a status *)
+(* what the handler returned: a response (its metadata, its extension, its message(s)) or a
+   status.  A unary response has exactly one message. *)
 Inductive handler_result :=
-| HOk (md : hm) (ov : override)
+| HOk (md : hm) (ov : override) (msgs : list (list N))
 | HErr (st : status).
+Definition response_messages (s : shape) (msgs : list (list N)) : list (list N) :=
+  if response_is_unary s then [hd [] msgs] else msgs.
+(* the handler sees what reading the request gave: for the unary request shapes it is only
+   called after a successful read; for the streaming ones it reads the stream itself and is
+   given the outcome (messages before the first error, the error if any) *)
+Definition handler := nat * (unit + status) -> handler_result.
 
-(* the request as the server sees it: headers, and the first frame of the body *)
-Record request := mkRequest { rq_headers : hm; rq_flag : N; rq_inflates : list encoding }.
+(* the request as the server sees it: headers, and the frames of the body *)
+Record request := mkRequest { rq_headers : hm; rq_frames : list rframe }.
 
 Inductive response :=
 | RespStatus (st : status) (headers : hm)    (* Status::into_http: headers only *)
-| RespOk (headers : hm) (flag : N) (used : option encoding)
-                                             (* headers, one message frame, grpc-status 0 trailers *)
+| RespOk (headers : hm) (frames : list wframe)
+                                             (* headers, message frames, grpc-status 0 trailers *)
 | RespPanic.
 
 (* Status::into_http: content-type then add_header(..).unwrap() *)
@@ -273,42 +323,63 @@ Definition status_into_http (st : status) : response :=
 Definition effective_encoding (chosen : option encoding) (ov : override) : option encoding :=
   match ov with Disable => None | Inherit => chosen end.
 
-(* Grpc::map_response *)
-Definition map_response (r : handler_result) (accept_encoding : option encoding) : response :=
-  match r with
-  | HErr st => status_into_http st
-  | HOk md ov =>
-      let h0 := sanitize md in
-      let h1 := hm_insert h0 hdr_content_type grpc_content_type in
-      let h2 := match accept_encoding with
-                | Some e =>
-                    (* into_header_value = HeaderValue::from_static: panics on an illegal value *)
-                    match mk_hv (as_str e) with
-                    | Some v => Done (hm_insert h1 hdr_grpc_encoding v)
-                    | None => Panic
-                    end
-                | None => Done h1
-                end in
-      match h2 with
-      | Panic => RespPanic
-      | Done h2 =>
-          let eff := effective_encoding accept_encoding ov in
-          RespOk h2 (flag_of eff) eff
-      end
+(* map_request_unary: first message (try_next), then trailers() drains the rest; an error
+   anywhere is the result, an empty body is INTERNAL *)
+Definition map_request_unary (enc : option encoding) (fs : list rframe) : nat * (unit + status) :=
+  match fs with
+  | [] => (O, inr (internal missing_request_msg))
+  | _ => decode_all enc fs
   end.
 
-(* Grpc::unary with map_request_unary inlined *)
-Definition server_unary (sv : server) (rq : request) (h : handler_result) : response :=
-  let accept_encoding := from_accept_encoding_header (rq_headers rq) (sv_send sv) in
-  match from_encoding_header (rq_headers rq) (sv_accept sv) with
-  | RecvPanic => RespPanic
-  | RecvErr st => status_into_http st
-  | RecvOk request_encoding =>
-      match decode_first request_encoding (rq_flag rq) (rq_inflates rq) with
-      | inr st => status_into_http st
-      | inl _ => map_response h accept_encoding
-      end
-  end.
+Section ServerCodec.
+  Variable cmp : encoding -> list N -> list N.
+
+  (* Grpc::map_response (the t! macro turns Err(status) into status.into_http()) *)
+  Definition map_response (s : shape) (r : handler_result) (accept_encoding : option encoding)
+    : response :=
+    match r with
+    | HErr st => status_into_http st
+    | HOk md ov msgs =>
+        let h0 := sanitize md in
+        let h1 := hm_insert h0 hdr_content_type grpc_content_type in
+        let h2 := match accept_encoding with
+                  | Some e =>
+                      (* into_header_value = HeaderValue::from_static: panics on an illegal value *)
+                      match mk_hv (as_str e) with
+                      | Some v => Done (hm_insert h1 hdr_grpc_encoding v)
+                      | None => Panic
+                      end
+                  | None => Done h1
+                  end in
+        match h2 with
+        | Panic => RespPanic
+        | Done h2 =>
+            let eff := effective_encoding accept_encoding (override_for s ov) in
+            RespOk h2 (map (encode_item cmp eff) (response_messages s msgs))
+        end
+    end.
+
+  (* Grpc::unary / server_streaming / client_streaming / streaming.  Each of the four computes
+     accept_encoding from its own copy of from_accept_encoding_header(.., send) and reads
+     grpc-encoding through request_encoding_if_supported(.., accept). *)
+  Definition server_call (s : shape) (sv : server) (rq : request) (h : handler) : response :=
+    let accept_encoding := from_accept_encoding_header (rq_headers rq) (sv_send sv) in
+    match from_encoding_header (rq_headers rq) (sv_accept sv) with
+    | RecvPanic => RespPanic
+    | RecvErr st => status_into_http st
+    | RecvOk request_encoding =>
+        if request_is_unary s then
+          match map_request_unary request_encoding (rq_frames rq) with
+          | (_, inr st) => status_into_http st
+          | (n, inl u) => map_response s (h (n, inl u)) accept_encoding
+          end
+        else map_response s (h (decode_all request_encoding (rq_frames rq))) accept_encoding
+    end.
+End ServerCodec.
+
+(* the handler of the correspondence harness: a stream error becomes its own result *)
+Definition propagate (r : handler_result) : handler :=
+  fun d => match snd d with inl _ => r | inr st => HErr st end.
 
 (* ------------------------------------------------------------------ client::Grpc *)
 Record client := mkClient { cl_send : option encoding; cl_accept : enabled }.
@@ -341,8 +412,17 @@ Definition prepare_request (c : client) (user_md : hm) : outcome hm :=
       end
   end.
 
-(* EncodeBody::new_client: request frames use exactly the configured encoding *)
-Definition client_request_encoding (c : client) : option encoding := cl_send c.
+(* Grpc::unary -> client_streaming -> streaming and server_streaming -> streaming: every shape
+   builds its request in streaming (EncodeBody::new_client with the configured encoding, then
+   prepare_request); unary and server_streaming send exactly one message *)
+Definition request_messages (s : shape) (msgs : list (list N)) : list (list N) :=
+  if request_is_unary s then [hd [] msgs] else msgs.
+Definition client_request (cmp : encoding -> list N -> list N) (s : shape) (c : client)
+           (user_md : hm) (msgs : list (list N)) : outcome (hm * list wframe) :=
+  match prepare_request c user_md with
+  | Panic => Panic
+  | Done h => Done (h, map (encode_item cmp (cl_send c)) (request_messages s msgs))
+  end.
 
 (* Grpc::create_response: the encoding check comes first, then the trailers-only test *)
 Inductive client_stream :=
@@ -361,24 +441,42 @@ Definition create_response (c : client) (headers : hm) : client_stream :=
       end
   end.
 
-(* the first message of the response stream *)
+(* what the caller gets: messages delivered, then a clean end or a status *)
 Inductive client_result :=
-| CrErr (st : status)
-| CrMessage
-| CrEnd
+| CrDone (delivered : nat) (final : unit + status)
 | CrPanic.
-Definition client_receive (c : client) (headers : hm) (flag : N) (inflates : list encoding)
-  : client_result :=
+(* the response stream read to its end (body = frames, then grpc-status 0 trailers) *)
+Definition read_response (c : client) (headers : hm) (fs : list rframe) : client_result :=
   match create_response c headers with
   | ClPanic => CrPanic
-  | ClErr st => CrErr st
-  | ClEmpty => CrEnd
+  | ClErr st => CrDone O (inr st)
+  | ClEmpty => CrDone O (inl tt)
+  | ClStream enc => let '(n, e) := decode_all enc fs in CrDone n e
+  end.
+(* Grpc::client_streaming (also behind unary): the first message is the response; an error on
+   it gets the response headers merged into its metadata; trailers() then drains the rest *)
+Definition with_headers (st : status) (headers : hm) : status :=
+  mkStatus (st_code st) (st_msg st) (st_details st) (hm_extend (st_md st) headers).
+Definition single_response (c : client) (headers : hm) (fs : list rframe) : client_result :=
+  match create_response c headers with
+  | ClPanic => CrPanic
+  | ClErr st => CrDone O (inr st)
+  | ClEmpty => CrDone O (inr (internal missing_response_msg))
   | ClStream enc =>
-      match decode_first enc flag inflates with
-      | inl _ => CrMessage
-      | inr st => CrErr st
+      match fs with
+      | [] => CrDone O (inr (internal missing_response_msg))
+      | f :: r =>
+          match decode_first enc (rf_flag f) (rf_inflates f) with
+          | inr st => CrDone O (inr (with_headers st headers))
+          | inl _ => match decode_all enc r with
+                     | (_, inr st) => CrDone O (inr st)
+                     | (_, inl _) => CrDone 1 (inl tt)
+                     end
+          end
       end
   end.
+Definition client_receive (s : shape) (c : client) (headers : hm) (fs : list rframe) : client_result :=
+  if response_is_unary s then single_response c headers fs else read_response c headers fs.
 
 (* ------------------------------------------------------------------ observables *)
 Definition enc_tag (o : option encoding) : N :=
@@ -390,7 +488,8 @@ Definition sel_keys : list (list N) :=
 Definition sel (m : hm) : tr := Nd (map (fun k => Nd (map Bs (hm_get_all m k))) sel_keys).
 
 Definition msg_prefixes : list (list N) :=
-  [unsupported_msg_prefix; flag_no_encoding_msg; flag_invalid_prefix; decompress_err_prefix].
+  [unsupported_msg_prefix; flag_no_encoding_msg; flag_invalid_prefix; decompress_err_prefix;
+   missing_request_msg; missing_response_msg].
 Fixpoint canon_by (ps : list (list N)) (m : list N) : list N :=
   match ps with
   | [] => m
@@ -400,48 +499,36 @@ Definition status_brief (st : status) : tr :=
   Nd [Nn (st_code st); Bs (canon_by msg_prefixes (st_msg st));
       Nd (map Bs (hm_get_all (st_md st) hdr_grpc_accept_encoding))].
 
+(* the compressor as a finite table (what the independent codecs of the harness produced) *)
+Fixpoint ctab (t : list (encoding * list N * list N)) (e : encoding) (m : list N) : list N :=
+  match t with
+  | [] => []
+  | (e', m', c) :: r => if encoding_eqb e' e && bytes_eqb m' m then c else ctab r e m
+  end.
+
+Definition obs_wframe (f : wframe) : tr := Nd [Nn (wf_flag f); Nn (enc_tag (wf_used f)); Bs (wf_bytes f)].
 Definition obs_response (r : response) : tr :=
   match r with
   | RespStatus st m => Nd [Nn 1; status_brief st; sel m]
-  | RespOk m flag used => Nd [Nn 0; hm_canon m; Nn flag; Nn (enc_tag used)]
+  | RespOk m frames => Nd [Nn 0; hm_canon m; Nd (map obs_wframe frames)]
   | RespPanic => Nd [Nn 99]
   end.
-Definition obs_server (sv : server) (rq : request) (h : handler_result) : tr :=
-  obs_response (server_unary sv rq h).
+Definition obs_server (t : list (encoding * list N * list N)) (s : shape) (sv : server)
+           (rq : request) (h : handler_result) : tr :=
+  obs_response (server_call (ctab t) s sv rq (propagate h)).
 
-Definition obs_client_request (c : client) (user_md : hm) : tr :=
-  match prepare_request c user_md with
+Definition obs_client_request (t : list (encoding * list N * list N)) (s : shape) (c : client)
+           (user_md : hm) (msgs : list (list N)) : tr :=
+  match client_request (ctab t) s c user_md msgs with
   | Panic => Nd [Nn 99]
-  | Done m => Nd [Nn 0; hm_canon m; Nn (flag_of (client_request_encoding c));
-                  Nn (enc_tag (client_request_encoding c))]
+  | Done (m, frames) => Nd [Nn 0; hm_canon m; Nd (map obs_wframe frames)]
   end.
-Definition obs_client_receive (c : client) (headers : hm) (flag : N) (inflates : list encoding) : tr :=
-  match client_receive c headers flag inflates with
-  | CrErr st => Nd [Nn 1; status_brief st]
-  | CrMessage => Nd [Nn 0]
-  | CrEnd => Nd [Nn 2]
+Definition obs_client_receive (s : shape) (c : client) (headers : hm) (fs : list rframe) : tr :=
+  match client_receive s c headers fs with
+  | CrDone n (inl _) => Nd [Nn 0; Nn (N.of_nat n)]
+  | CrDone n (inr st) => Nd [Nn 1; Nn (N.of_nat n); status_brief st]
   | CrPanic => Nd [Nn 99]
   end.
-
-(* a response without any body frame (trailers-only): only create_response matters *)
-Definition obs_client_no_body (c : client) (headers : hm) : tr :=
-  match create_response c headers with
-  | ClErr st => Nd [Nn 1; status_brief st]
-  | ClEmpty => Nd [Nn 2]
-  | ClStream _ => Nd [Nn 3]
-  | ClPanic => Nd [Nn 99]
-  end.
-
-(* the pure functions of compression.rs on their own *)
-Definition obs_accept_value (c : enabled) : tr :=
-  match accept_value c with
-  | AvNone => Nd []
-  | AvSome v => Nd [Bs v]
-  | AvPanic => Nd [Nn 99]
-  end.
-Definition obs_config (c : enabled) : tr :=
-  Nd [Nd (map (fun e => Nn (enc_tag (Some e))) (en_list c)); obool (is_empty c);
-      Nd (map (fun e => obool (is_enabled c e)) encodings_all); obs_accept_value c].
 
 (* sequences of the public mutators of EnabledCompressionEncodings, observed through Debug,
    is_enabled and is_empty *)
